@@ -118,7 +118,9 @@ func rewriteImports(dir string) (rewritten, warnings []string, err error) {
 				changed = true
 			}
 		}
-		if rewriteGoStmts(f) > 0 {
+		nGo := rewriteGoStmts(f)
+		nCh := insertChanPoints(f)
+		if nGo+nCh > 0 {
 			changed = true
 			// the printer places comments by position; around rewritten statements that
 			// can go wrong, so only directives and what precedes the package clause stay
@@ -249,6 +251,81 @@ func rewriteGoStmts(f *ast.File) int {
 			if g, ok := x.Stmt.(*ast.GoStmt); ok {
 				x.Stmt = conv(g)
 			}
+		}
+		return true
+	})
+	return n
+}
+
+// insertChanPoints puts a scheduling point next to every statement-level channel
+// operation: before the statement, after it (send / receive statements), and at
+// the head of every clause of a select. Channels themselves stay real.
+func insertChanPoints(f *ast.File) int {
+	n := 0
+	point := func() ast.Stmt {
+		return &ast.ExprStmt{X: &ast.CallExpr{Fun: &ast.SelectorExpr{X: ast.NewIdent("verifcore"), Sel: ast.NewIdent("ChanPoint")}}}
+	}
+	hasRecv := func(e ast.Expr) bool {
+		found := false
+		ast.Inspect(e, func(nd ast.Node) bool {
+			switch x := nd.(type) {
+			case *ast.FuncLit:
+				return false
+			case *ast.UnaryExpr:
+				if x.Op == token.ARROW {
+					found = true
+				}
+			}
+			return !found
+		})
+		return found
+	}
+	isChanStmt := func(st ast.Stmt) (is, sel bool) {
+		switch x := st.(type) {
+		case *ast.SelectStmt:
+			return true, true
+		case *ast.SendStmt:
+			return true, false
+		case *ast.ExprStmt:
+			return hasRecv(x.X), false
+		case *ast.AssignStmt:
+			for _, r := range x.Rhs {
+				if hasRecv(r) {
+					return true, false
+				}
+			}
+		}
+		return false, false
+	}
+	fix := func(list []ast.Stmt) []ast.Stmt {
+		var out []ast.Stmt
+		for _, st := range list {
+			is, sel := isChanStmt(st)
+			if !is {
+				out = append(out, st)
+				continue
+			}
+			n++
+			out = append(out, point(), st)
+			if sel {
+				for _, c := range st.(*ast.SelectStmt).Body.List {
+					cc := c.(*ast.CommClause)
+					cc.Body = append([]ast.Stmt{point()}, cc.Body...)
+				}
+			} else {
+				out = append(out, point())
+			}
+		}
+		return out
+	}
+	ast.Inspect(f, func(nd ast.Node) bool {
+		switch x := nd.(type) {
+		case *ast.BlockStmt:
+			x.List = fix(x.List)
+		case *ast.CaseClause:
+			x.Body = fix(x.Body)
+		case *ast.CommClause:
+			x.Body = fix(x.Body)
 		}
 		return true
 	})
